@@ -107,7 +107,7 @@ def gen_case(rng):
         split = True
     Tc = 20 if big else T
     if tail == 'eof' and timeout_event is None and not split and rng.random() < 0.25:
-        Tc = -1          # "the default": no pause in this dialogue comes anywhere near it
+        Tc = rng.choice([-1, None])          # "the default" / "no time limit": no pause in this dialogue comes near
     return {'dup': rng.choice([0, 0, 1, 2, 3]), 'enc': enc, 'steps': steps, 'events': events, 'overlap': overlap,
             'form': rng.choice(['dict', 'list']),
             'eof_event': eof_event, 'timeout_event': timeout_event, 'code': code, 'stop_at': stop_at,
@@ -120,9 +120,11 @@ class Book(object):
 
     def __init__(self):
         self.calls = []
+        self.timeouts_seen = []
 
     def make(self, tag, result, counter=None):
         def cb(d):
+            self.timeouts_seen.append(getattr(d.get('child'), 'timeout', 'no child'))
             self.calls.append((tag, d.get('event_count'), 'child' in d and hasattr(d['child'], 'expect')))
             if callable(result):
                 return result()
@@ -130,6 +132,7 @@ class Book(object):
         return cb
 
     def method_str(self, d):
+        self.timeouts_seen.append(getattr(d.get('child'), 'timeout', 'no child'))
         self.calls.append(('method', d.get('event_count'), 'child' in d and hasattr(d['child'], 'expect')))
         return self._method_value
 
@@ -160,6 +163,7 @@ def one(case, acc):
             elif k == 'method-str':
                 b2 = Book()
                 b2.calls = book.calls
+                b2.timeouts_seen = book.timeouts_seen
                 b2._method_value = resp
                 r = b2.method_str
             elif k == 'func-none-then-line':
@@ -263,8 +267,10 @@ def one(case, acc):
         # ---- output: exactly what the child printed up to the stop point
         full = b''.join(bytes.fromhex(s[1]) for s in case['steps'] if s[0] == 'print')
         never_stops = bool(case['timeout_event'] and case['timeout_event']['true_at'] > 2)
+        Treq = case.get('T', T)
+        Teff = 30 if Treq == -1 else (float('inf') if Treq is None else max(Treq, T))
         stops_early = case['stop_at'] is not None or (
-            any(s[0] == 'pause' and s[1] > T for s in case['steps']) and not never_stops)
+            any(s[0] == 'pause' and s[1] > Teff for s in case['steps']) and not never_stops)
         acc.count('output_bytes_compared', len(got))
         if not stops_early:
             if got != full:
@@ -274,7 +280,7 @@ def one(case, acc):
             # stop point: the text printed before the long pause / up to the stop prompt
             upto = b''
             for s in case['steps']:
-                if s[0] == 'pause' and s[1] > T:
+                if s[0] == 'pause' and s[1] > Teff:
                     break
                 if s[0] == 'print':
                     upto += bytes.fromhex(s[1])
@@ -372,9 +378,21 @@ def diff(got, want):
     return 'first difference at %d: got %r expected %r' % (i, got[max(0, i - 10):i + 20], want[max(0, i - 10):i + 20])
 
 
+def long_silence_case(Tval):
+    """a child that says nothing for 31 s in the middle: with timeout=None run() has no time limit at all, with -1 it has
+    the 30 s default of the spawn class"""
+    return {'enc': None, 'steps': [['print', b'start\r\n'.hex()], ['pause', 31.0], ['print', b'done\r\n'.hex()], ['exit', 3]],
+            'events': [], 'overlap': None, 'form': 'list', 'eof_event': None, 'timeout_event': None, 'code': 3, 'stop_at': None,
+            'withexitstatus': True, 'runu': False, 'T': Tval, 'split_prompt': False, 'dup': 0, 'long_silence': True}
+
+
 def plan(tier, seed):
     n = 200 if tier == 'quick' else 4000
-    return [{'n': b - a, 'shard': i, 'seed': seed} for i, (a, b) in enumerate(split_range(n, 16))]
+    specs = [{'n': b - a, 'shard': i, 'seed': seed} for i, (a, b) in enumerate(split_range(n, 16))]
+    specs.append({'long': [None], 'shard': 90, 'seed': seed})
+    if tier != 'quick':
+        specs.append({'long': [-1], 'shard': 91, 'seed': seed})
+    return specs
 
 
 def run_shard(spec, acc):
@@ -382,6 +400,11 @@ def run_shard(spec, acc):
     signal.signal(signal.SIGHUP, signal.SIG_DFL)
     if 'replay' in spec:
         return one(spec['replay'], acc)
+    if 'long' in spec:
+        for Tval in spec['long']:
+            acc.count('long_silence_runs')
+            confirmed(long_silence_case(Tval), one, acc)
+        return
     rng = rng_for(spec['seed'], spec['shard'], 12)
     for _ in range(spec['n']):
         # real children and a real (1 s) timeout: a violation must reproduce in two further serial runs
